@@ -43,7 +43,7 @@ type Op struct {
 type Weights struct {
 	Next, Extend, Lookup, MarkUsed, Lock, Unlock, UnlockWrong, ChangePriv, ChangePub,
 	NewAccount, Rename, ImportPriv, ImportPub, ImportScript, ImportWScript, ImportTScript, ImportXPub,
-	Restart, DerivePath, Invalidate, SyncedTo, NewScope, Convert int
+	Restart, DerivePath, Invalidate, SyncedTo, NewScope, Convert, SyncedToGap int
 }
 
 var DefaultWeights = Weights{Next: 18, Extend: 6, Lookup: 8, MarkUsed: 5, Lock: 5, Unlock: 7, UnlockWrong: 3, ChangePriv: 3, ChangePub: 2,
@@ -73,7 +73,7 @@ func (w *World) Gen(wt Weights) *Op {
 		{wt.NewAccount, w.opNewAccount}, {wt.Rename, w.opRename}, {wt.ImportPriv, w.opImportPriv}, {wt.ImportPub, w.opImportPub},
 		{wt.ImportScript, func() *Op { return w.opImportScript("script") }}, {wt.ImportWScript, func() *Op { return w.opImportScript("wscript") }},
 		{wt.ImportTScript, func() *Op { return w.opImportScript("tscript") }}, {wt.ImportXPub, w.opImportXPub},
-		{wt.Restart, w.opRestart}, {wt.DerivePath, w.opDerivePath}, {wt.Invalidate, w.opInvalidate}, {wt.SyncedTo, w.opSyncedTo}, {wt.NewScope, w.opNewScope}, {wt.Convert, w.opConvert},
+		{wt.Restart, w.opRestart}, {wt.DerivePath, w.opDerivePath}, {wt.Invalidate, w.opInvalidate}, {wt.SyncedTo, w.opSyncedTo}, {wt.NewScope, w.opNewScope}, {wt.Convert, w.opConvert}, {wt.SyncedToGap, w.opSyncedToGap},
 	}
 	tot := 0
 	for _, e := range es {
@@ -686,5 +686,17 @@ func (w *World) opConvert() *Op {
 			}
 		}
 	}
+	return op
+}
+
+// opSyncedToGap offers a block that does not connect (its predecessor's hash
+// is unknown): the manager must refuse it and memory must stay equal to disk.
+func (w *World) opSyncedToGap() *Op {
+	h := w.Height + 2 + int32(w.R.Intn(5))
+	var hash chainhash.Hash
+	w.R.Read(hash[:])
+	bs := &waddrmgr.BlockStamp{Height: h, Hash: hash, Timestamp: time.Unix(int64(1600000000+int(h)*600), 0)}
+	op := &Op{Kind: "syncedto-gap", Mutates: true, WantErr: "ErrBlockNotFound", Name: fmt.Sprintf("syncedto %d (gap: tip is %d)", h, w.Height)}
+	op.Run = func(ns walletdb.ReadWriteBucket) error { return w.M.SetSyncedTo(ns, bs) }
 	return op
 }
